@@ -177,8 +177,8 @@ def evaluate_property(case, out):
 
 def check(run, tier, seed, replay):
     import sys
-    from props import compcheck, gen_dac
-    compcheck.run(run, "C17", [sys.modules[__name__], gen_dac], tier, seed, replay,
+    from props import compcheck, gen_dac, gen_cds32
+    compcheck.run(run, "C17", [sys.modules[__name__], gen_dac, gen_cds32], tier, seed, replay,
                   rule="VByte: every byte-count boundary + random 32-bit values; LogSequence: every width 1..64 x lengths around word "
                        "multiples x set/overwrite sequences, vector constructor, save/load; DAC_VLS / DAC_BVLS: structured sequence lists "
                        "(all length 1, all maximal, last of length 1 / maximal, nLevels = 1, counts and bitmap lengths around 32/64/128/256, "
